@@ -356,6 +356,23 @@ class IncludeDebugNodes:
             raise ContractBindError("include_debug_nodes: leaves_ids was re-bound")
         return include_debug_nodes_post(g, lambda t: a0[t], L.s.mem) + [("leaves_in_graph", z3.ForAll([x], z3.Implies(L.s.mem(x), g.N[x])), {"C13", "C14"})]
 
+    # ---- completeness (the result is a FIXED POINT; C03: a debug node that belongs to the documented selection runs) ----
+    # blocked(s, L): some predecessor of s in the graph is not in L
+    @staticmethod
+    def blocked(g, Lmem, s_):
+        p_ = bv("p!idn", Id)
+        return z3.Exists([p_], z3.And(g.N[p_], E(p_, s_), z3.Not(Lmem(p_))))
+
+    @staticmethod
+    def settled(g, Lmem, s_):
+        """s needs no further consideration w.r.t. L: it is in L, or not a debug node of the graph, or blocked"""
+        return z3.Or(Lmem(s_), z3.Not(g.debug.val[s_]), z3.Not(g.N[s_]), IncludeDebugNodes.blocked(g, Lmem, s_))
+
+    @staticmethod
+    def disc_term(env):
+        d = env["new_debug_xn_discovered"]
+        return d.t if isinstance(d, SBool) else z3.BoolVal(bool(d))
+
     class Outer(LoopSpec):
         carried = ("new_debug_xn_discovered",)
 
@@ -366,7 +383,10 @@ class IncludeDebugNodes:
             return {"new_debug_xn_discovered": SBool(C.fresh("discovered", B))}
 
         def inv(self, env, st):
-            return IncludeDebugNodes.inv_common(env)
+            g, L = C.ghost["g"], env["leaves_ids"]
+            u_, s_ = bv("u!idn", Id), bv("s!idn", Id)
+            closed = z3.ForAll([u_, s_], z3.Implies(z3.And(L.s.mem(u_), E(u_, s_)), IncludeDebugNodes.settled(g, L.s.mem, s_)))
+            return IncludeDebugNodes.inv_common(env) + [("a_pass_without_discovery_means_closed", z3.Implies(z3.Not(IncludeDebugNodes.disc_term(env)), closed), {"C03", "C13"})]
 
     class Inner(LoopSpec):
         carried = ("new_debug_xn_discovered",)
@@ -381,7 +401,16 @@ class IncludeDebugNodes:
             return {"new_debug_xn_discovered": SBool(C.fresh("discovered", B))}
 
         def inv(self, env, st):
-            return IncludeDebugNodes.inv_common(env)
+            g, L = C.ghost["g"], env["leaves_ids"]
+            u_, s_ = bv("u!idn", Id), bv("s!idn", Id)
+            nd = z3.Not(IncludeDebugNodes.disc_term(env))
+            st1 = st if self.k == 1 else C.loop_states[1]
+            cl = [("no_discovery_so_far_means_visited_leaves_are_closed",
+                   z3.Implies(nd, z3.ForAll([u_, s_], z3.Implies(z3.And(st1.seen[u_], E(u_, s_)), IncludeDebugNodes.settled(g, L.s.mem, s_)))), {"C03", "C13"})]
+            if self.k == 2:
+                cl.append(("no_discovery_so_far_means_visited_successors_are_settled",
+                           z3.Implies(nd, z3.ForAll([s_], z3.Implies(st.seen[s_], IncludeDebugNodes.settled(g, L.s.mem, s_)))), {"C03", "C13"}))
+            return IncludeDebugNodes.inv_common(env) + cl
 
     def namespace(self):
         return common_ns()
@@ -398,6 +427,9 @@ class IncludeDebugNodes:
             raise ContractBindError("include_debug_nodes is expected to return the (extended) list it was given")
         for nm, goal, serves in include_debug_nodes_post(g, lambda t: a0[t], L.s.mem):
             C.check(goal, f"include_debug_nodes.post.{nm}", serves, "post")
+        u_, s_ = bv("u!idn", Id), bv("s!idn", Id)
+        C.check(z3.ForAll([u_, s_], z3.Implies(z3.And(L.s.mem(u_), E(u_, s_)), IncludeDebugNodes.settled(g, L.s.mem, s_))),
+                "include_debug_nodes.post.C03.fixed_point_every_debug_successor_whose_parents_are_all_in_the_result_is_in_it", {"C03", "C13"}, "post")
         C.check(unchanged(g, snap), "include_debug_nodes.frame.C15.graph_untouched", {"C15"}, "frame")
         return "return"
 
